@@ -31,7 +31,7 @@ PKG_DIRS = {"lorawan": ".", "lorawan_test": ".", "band": "band", "band_test": "b
 
 
 def sh(cmd, cwd, timeout=900):
-    p = subprocess.run(cmd, shell=True, cwd=cwd, env=ENV, stdout=subprocess.PIPE, stderr=subprocess.STDOUT, text=True, timeout=timeout)
+    p = subprocess.run(cmd, shell=True, executable="/bin/bash", cwd=cwd, env=ENV, stdout=subprocess.PIPE, stderr=subprocess.STDOUT, text=True, timeout=timeout)
     return p.returncode, p.stdout
 
 
@@ -69,7 +69,9 @@ def place_demo(src_dir, repo):
             d = "."
         dst = os.path.join(repo, d, "zz_seeded_demo_test.go")
         shutil.copy(t, dst)
-        return "go test -vet=off -count=1 -run . %s 2>&1 | tail -30" % ("./" + d if d != "." else "."), [dst], "go test in %s" % d
+        names = re.findall(r"^func (Test\w+|Example\w*)\(", txt, re.M)
+        pat = "^(%s)$" % "|".join(names) if names else "."
+        return "go test -vet=off -count=1 -run '%s' %s 2>&1 | tail -30" % (pat, "./" + d if d != "." else "."), [dst], "go test -run '%s' in %s" % (pat, d)
     m = os.path.join(src_dir, "demo", "main.go")
     if os.path.isfile(m):
         dd = os.path.join(repo, "zz_seeded_demo")
